@@ -1508,6 +1508,11 @@ package sftp
 //@   property C07, C02, C01, C18, C15, C10
 //@   assert before call packetData#1: arg0 == pkt && arg1 == alloc && arg2 == orderID && arg3 == maxTxPacket
 //@   assert before call (io.ReaderAt).ReadAt#1: arg1 == data && arg2 == offset
+//@   assert before call (io.ReaderAt).ReadAt#1: typeis(pkt, *sshFxpReadPacket) && arg2 == int64(pkt.(*sshFxpReadPacket).Offset)
+//@   ensures !typeis(pkt, *sshFxpReadPacket) ==> typeis(result, *sshFxpStatusPacket)
+//@   assert before call statusFromError#1: arg1 != nil
+//@   assert before call statusFromError#2: arg1 != nil
+// (the matching handler: only a READ request reaches the reader of a handle opened for reading; D16)
 //@   requires r != nil && pkt != nil && (alloc == nil || alloc.used != nil) && rsReqType(pkt) && maxTxPacket <= 0x7fffffff
 //@   ensures result != nil && result.id() == pkt.id()
 //@   ensures typeis(result, *sshFxpDataPacket) || typeis(result, *sshFxpStatusPacket)
@@ -1518,6 +1523,11 @@ package sftp
 //@   property C14
 //@   property C07, C02, C01
 //@   assert before call (io.WriterAt).WriteAt#1: arg1 == data && arg2 == offset
+//@   assert before call (io.WriterAt).WriteAt#1: typeis(pkt, *sshFxpWritePacket) && arg1 == pkt.(*sshFxpWritePacket).Data && arg2 == int64(pkt.(*sshFxpWritePacket).Offset)
+//@   assert before call statusFromError#1: arg1 != nil
+//@   assert before call statusFromError#2: arg1 != nil
+// (the matching handler: only a WRITE request reaches the writer of a handle opened for writing, with that request's
+// own payload and offset; a READ's reply buffer is never written to the file; D16)
 //@   requires r != nil && pkt != nil && (alloc == nil || alloc.used != nil) && rsReqType(pkt) && maxTxPacket <= 0x7fffffff
 //@   ensures result != nil && result.id() == pkt.id()
 //@   ensures typeis(result, *sshFxpStatusPacket)
